@@ -473,3 +473,39 @@ fn c01_last_block_with_bad_hash_is_not_stored() {
     std::mem::forget(res);
     std::mem::forget(rig);
 }
+
+fn piece_rx_new_case(len: usize) {
+    let hash: [u8; HASH_SIZE] = kani::any();
+    let idx: usize = kani::any();
+    let rx = PieceRx::new(&ReqData { piece_index: idx, piece_length: len, piece_hash: hash });
+    assert!(rx.piece_index == idx, "the plan is for the assigned piece");
+    assert!(rx.buff.len() == len, "assembly buffer of exactly the piece length");
+    assert!(rx.requested.len() == 0, "nothing outstanding yet");
+    let blocks = (len + PIECE_BLOCK_SIZE - 1) / PIECE_BLOCK_SIZE;
+    assert!(rx.left.len() == blocks, "every block still to be requested");
+    if blocks > 0 {
+        assert!(rx.left[0].0 == 0, "first block starts at 0");
+        let last = rx.left[blocks - 1];
+        assert!(last.0 + last.1 == len, "last block ends at the piece length");
+    }
+    let k: usize = kani::any();
+    if k < HASH_SIZE {
+        assert!(rx.hash[k] == hash[k], "expected hash handed over verbatim");
+    }
+    std::mem::forget(rx);
+}
+
+// @prop C10 C01
+// @fn PieceRx::new, PieceRx::left
+// @bound piece lengths 0, 1, 16384, 16385 and 2*16384+5 (concrete: the assembly buffer is allocated with the piece length), any piece index, any expected hash
+// @desc a new download plan names the assigned piece, has an assembly buffer of exactly the piece length, nothing outstanding, all blocks unrequested from offset 0 to the piece length, and carries the torrent's hash for the later verification
+#[kani::proof]
+#[kani::unwind(6)]
+fn c10_new_piece_plan_matches_assignment() {
+    piece_rx_new_case(0);
+    piece_rx_new_case(1);
+    piece_rx_new_case(16384);
+    piece_rx_new_case(16385);
+    piece_rx_new_case(2 * 16384 + 5);
+    kani::cover!(true, "reached");
+}
